@@ -328,11 +328,17 @@ func installInternalWriteMonitor(r *Run, n *Node, oracle string, modeOf func(db 
 		n.K.Locks.mu.Unlock()
 	}
 	prev := pageOpHookOf(n)
+	gen := n.K // the kernel (process generation) this monitor belongs to
 	n.SetPageOpHook(func(db *litefs.DB, op string, pgno uint32) error {
 		if prev != nil {
 			if err := prev(db, op, pgno); err != nil {
 				return err
 			}
+		}
+		if n.K != gen {
+			// a goroutine of the process that was killed (its file operations
+			// fail, it is winding down): the lock table is the new process's
+			return nil
 		}
 		n.K.Locks.mu.Lock()
 		client := inClient[goid()] > 0
